@@ -4,10 +4,15 @@ import XpmVerif.Proofs.RestartLink
     differs from M2 (`St.apply`) in three ways — the first segment overwrites the marker with what the job directory
     shows, the completion of the `code` thread overwrites the exit code, and a live process found through the pid file
     is adopted.  The first two are *edits* of fields no invariant of `Proofs/SchedFinal.lean` / `SchedTerm.lean` looks
-    at where they happen (`Good_edit`), so every invariant and the measure `mu` carry over to every run of the world
-    scheduler **in which no job is adopted**; job processes add their own rank.  Adoption itself is outside the
-    invariants of M2 (an adopted job is RUNNING without launch, locks or satisfied dependencies): see the comment at
-    the end for the full statement and what is missing. -/
+    at where they happen (`good_edit`), so every invariant and the measure `mu` carry over to every run of the world
+    scheduler in which no job is adopted (`wstep`, `runW_bound`); job processes add their own rank (`wmu`).
+    A scheduler restarted over a disk on which no pid file names a live process, with distinct identifiers, never adopts
+    (`PidOwn`, `own_step`, `noAdopt_of_own`), and its re-submission phase is a run of M2 (`Phase`, `phase_submit`,
+    `resub`): `restart_run_finite_partial`.  A run lock held by the scheduler belongs to a job between its lock-enter
+    and lock-exit threads (`LockLink`, `lock_step`), so a world without enabled event has a scheduler with nothing
+    pending (`stuck_quiescent`) and `quiescent_final'` applies: `restart_maximal_run_partial`.  Adoption itself is
+    outside the invariants of M2 (an adopted job is RUNNING without launch, locks or satisfied dependencies): see the
+    comment at the end for the full statement and what is missing. -/
 namespace XpmVerif.RestartTerm
 open XpmVerif.Sched hiding Reachable flOK submitPre submitPost sumTo
 open XpmVerif.SchedFinal
@@ -750,5 +755,1164 @@ theorem noAdopt_of_own {fl : Flags} {a : StA Disk} (hG : Good fl a.s) (ho : PidO
       have := hu j' j hj' hjn hi'
       subst this
       omega
+
+theorem SameIds.refl (s : St) : SameIds s s := ⟨rfl, fun _ => rfl, fun _ h => h⟩
+
+theorem alive_congr {d d' : Disk} (hn : d'.np = d.np) (hp : d'.procs = d.procs) (q : Nat) : d'.alive q = d.alive q := by
+  unfold Disk.alive; rw [hn, hp]
+
+theorem procStep_pid (d : Disk) (p : Nat) (rm : Bool) (i q : Nat)
+    (h : ((d.procStep p rm).dir i).pid = some q) : (d.dir i).pid = some q := by
+  unfold Disk.procStep at h
+  split at h
+  · simp only [] at h
+    split at h
+    · split at h
+      · split at h <;> simp only [Disk.setDir, Disk.setProc, upd] at h <;> grind
+      · exact h
+    · split at h <;> simp only [Disk.setDir, Disk.setProc, upd] at h <;> grind
+    · simp only [Disk.setDir, Disk.setProc, upd] at h; grind
+    · exact h
+  · exact h
+
+theorem procStep_alive (d : Disk) (p : Nat) (rm : Bool) (q : Nat)
+    (h : (d.procStep p rm).alive q = true) : d.alive q = true := by
+  unfold Disk.procStep at h
+  split at h
+  · simp only [] at h
+    split at h
+    · split at h
+      · split at h <;> simp only [Disk.alive, Disk.setDir, Disk.setProc, upd] at h ⊢ <;> grind
+      · exact h
+    · split at h <;> simp only [Disk.alive, Disk.setDir, Disk.setProc, upd] at h ⊢ <;> grind
+    · simp only [Disk.alive, Disk.setDir, Disk.setProc, upd] at h ⊢; grind
+    · exact h
+  · exact h
+
+theorem gate_pid (d : Disk) (kind : TK) (j : Nat) (jb : Job) (ad : Bool) (c : Option Nat) (d' : Disk)
+    (h : world.gate d kind j jb ad = some (c, d')) (i : Nat) : (d'.dir i).pid = (d.dir i).pid := by
+  cases kind <;> simp only [world] at h
+  · split at h <;> simp at h
+    obtain ⟨_, rfl⟩ := h
+    simp only [Disk.setDir, upd]; split
+    · rename_i e; subst e; rfl
+    · rfl
+  · simp at h; obtain ⟨_, rfl⟩ := h
+    simp only [Disk.setDir, upd]; split
+    · rename_i e; subst e; rfl
+    · rfl
+  · split at h
+    · simp at h
+    · split at h <;> simp at h <;> obtain ⟨_, rfl⟩ := h <;> rfl
+  · simp at h; obtain ⟨_, rfl⟩ := h; rfl
+
+theorem onLaunch_pid (d : Disk) (j : Nat) (jb : Job) (i : Nat) :
+    ((world.onLaunch d j jb).dir i).pid = if i = jb.ident then some d.np else (d.dir i).pid := by
+  simp only [world, Disk.spawn, Disk.setDir, upd]
+  split <;> simp_all
+
+theorem onLaunch_alive (d : Disk) (j : Nat) (jb : Job) (q : Nat) (hq : q < d.np)
+    (h : (world.onLaunch d j jb).alive q = true) : d.alive q = true := by
+  simp only [world, Disk.spawn, Disk.setDir, Disk.alive, upd] at h ⊢
+  have : q ≠ d.np := by omega
+  simp_all
+
+/-- what a callback of the world scheduler does to the disk when nothing is adopted: nothing, or the launch of a job
+    whose launch count has just grown. -/
+theorem stepA_disk' (fl : Flags) (a : StA Disk) (cb : Cb) (rest : List Cb) (hr : a.s.ready = cb :: rest)
+    (hna : ∀ j, cb = .start j → (world.look a.d j (a.s.jobs j)).adopt = false) :
+    (stepA fl world a).d = a.d ∨
+    ∃ j, (stepA fl world a).d = world.onLaunch a.d j ((stepA fl world a).s.jobs j) ∧
+      (a.s.jobs j).launches < ((stepA fl world a).s.jobs j).launches := by
+  rw [stepA_cons fl world a cb rest hr]
+  cases cb with
+  | start j =>
+    have h0' : (world.look a.d j (({ a.s with ready := rest } : St).jobs j)).adopt = false := hna j rfl
+    simp only [runCbA, h0', Bool.false_eq_true, if_false]; simp
+  | resume j =>
+    simp only [runCbA]
+    split
+    · rename_i hlt
+      exact Or.inr ⟨j, rfl, hlt⟩
+    · exact Or.inl rfl
+  | _ => exact Or.inl rfl
+
+theorem sameIds_deliverA (a : StA Disk) (k j : Nat) (c : Option Nat) (d' : Disk) :
+    SameIds a.s (deliverA a k j c d').s := by
+  cases c with
+  | none => exact ⟨rfl, fun _ => rfl, fun _ h => h⟩
+  | some cv =>
+    refine ⟨rfl, ?_, ?_⟩
+    · intro i
+      show ((a.s.put j { (a.s.jobs j) with code := cv }).jobs i).ident = _
+      rw [jobs_put]; split
+      · rename_i e; subst e; rfl
+      · rfl
+    · intro i h
+      show ((a.s.put j { (a.s.jobs j) with code := cv }).jobs i).launches = 1
+      rw [jobs_put]; split
+      · rename_i e; subst e; exact h
+      · exact h
+
+/-- one event of the second scheduler keeps the ownership of the pid files and the distinct identifiers. -/
+theorem own_step {fl : Flags} {totals : List Nat} {done0 : Nat → Bool} {w : W}
+    (hW : WReach fl totals done0 w) (hG : Good fl w.a.s) (ho : PidOwn w.a.s w.a.d) (hu : UniqId w.a.s)
+    (e : WEv) (hen : WEnabled w e) (hna : NoAdoptAt w e) (hG' : Good fl (w.apply fl e).a.s) :
+    PidOwn (w.apply fl e).a.s (w.apply fl e).a.d ∧ UniqId (w.apply fl e).a.s := by
+  cases e with
+  | crash => exact absurd hen id
+  | crashAfterSpawn j => exact absurd hen id
+  | crashInPrepare j st => exact absurd hen id
+  | proc p rm =>
+    exact ⟨pidOwn_same (SameIds.refl _) ho (fun i q h1 h2 => ⟨procStep_pid _ _ _ _ _ h1, procStep_alive _ _ _ _ h2⟩), hu⟩
+  | sched ev =>
+    cases ev with
+    | submit _ _ _ _ => exact absurd hen id
+    | wait => exact absurd hen id
+    | step =>
+      have hne : w.a.s.ready ≠ [] := hen
+      cases hr : w.a.s.ready with
+      | nil => exact absurd hr hne
+      | cons cb rest =>
+        have hna' : ∀ j, cb = .start j → (world.look w.a.d j (w.a.s.jobs j)).adopt = false := by
+          intro j hj; subst hj; exact hna j rest hr
+        have hs := stepA_noAdopt fl w.a cb rest hr hna'
+        have hd := stepA_disk' fl w.a cb rest hr hna'
+        have key : ∀ se : St, Good fl se → SameIds w.a.s se → se.ready = w.a.s.ready →
+            (stepA fl world w.a).s = se.apply fl .step → SameIds w.a.s (stepA fl world w.a).s := by
+          intro se hGe hsi hre hse
+          rw [hse]
+          have hre' : se.ready = cb :: rest := by rw [hre, hr]
+          have : se.apply fl .step = ({ se with ready := rest } : St).runCb fl cb := by
+            simp only [St.apply]; unfold St.step; simp only [hre']
+          rw [this]
+          exact hsi.trans (sameIds_runCb fl se cb rest hGe.e.c.a.ctl hGe.e.c.a.loc hre')
+        have hsame : SameIds w.a.s (stepA fl world w.a).s := by
+          cases cb with
+          | start j =>
+            have hpc := head_start_pc (s := w.a.s) hG.e.c.a.ctl hr
+            have hun := hG.e.c.f j (Or.inr hpc)
+            have hsb : SameBut (w.a.s.jobs j) (markerRec w.a j) := ⟨rfl, rfl, rfl, rfl, rfl, rfl, rfl, rfl, rfl, rfl⟩
+            have hL := jlocal_marker_edit (hG.e.c.a.loc j) hpc hun (world.look w.a.d j (w.a.s.jobs j)).marker
+            exact key _ (good_edit hG hsb hL) (sameIds_edit hsb) rfl hs
+          | resume j => exact key _ hG (SameIds.refl _) rfl hs
+          | register j => exact key _ hG (SameIds.refl _) rfl hs
+          | wake j => exact key _ hG (SameIds.refl _) rfl hs
+          | check j d => exact key _ hG (SameIds.refl _) rfl hs
+          | notifyCheck j d => exact key _ hG (SameIds.refl _) rfl hs
+          | waiterRun => exact key _ hG (SameIds.refl _) rfl hs
+        refine ⟨?_, uniqId_same hsame hu⟩
+        show PidOwn (stepA fl world w.a).s (stepA fl world w.a).d
+        rcases hd with e3 | ⟨j, e3, hlt⟩
+        · rw [e3]; exact pidOwn_same hsame ho (fun i q h1 h2 => ⟨h1, h2⟩)
+        · rw [e3]
+          have hG2 : Good fl (stepA fl world w.a).s := hG'
+          generalize (stepA fl world w.a).s = s' at *
+          intro i q hp ha
+          rw [onLaunch_pid] at hp
+          by_cases hi : i = (s'.jobs j).ident
+          · have hl1 : (s'.jobs j).launches = 1 := by
+              have := (hG2.e.c.a.loc j).2.2.2.2.1
+              omega
+            have hjn : j < s'.n := by
+              apply Classical.byContradiction; intro hn
+              have hb := hG2.e.c.a.blank j (by omega)
+              have := (hG2.e.c.a.loc j).2.2.1 (by rw [hb]; rfl)
+              omega
+            exact ⟨j, hjn, hi.symm, hl1⟩
+          · rw [if_neg hi] at hp
+            have hq := ((wreach_inv hW).disk.pid i q hp).1
+            have ha' := onLaunch_alive _ _ _ _ hq ha
+            obtain ⟨j0, h1, h2, h3⟩ := ho i q hp ha'
+            exact ⟨j0, by rw [hsame.n]; exact h1, by rw [hsame.ident]; exact h2, hsame.launched j0 h3⟩
+    | deliver k =>
+      obtain ⟨kind, j, c, d', hk, hgate⟩ := hen
+      have hgp := gate_procs _ _ _ _ _ _ _ hgate
+      have e0 : (w.apply fl (.sched (.deliver k))).a = deliverA w.a k j c d' := by
+        show applyA fl world w.a (.deliver k) = _
+        simp only [applyA, hk, hgate]
+      rw [e0]
+      have hsame := sameIds_deliverA w.a k j c d'
+      refine ⟨pidOwn_same hsame ho ?_, uniqId_same hsame hu⟩
+      intro i q h1 h2
+      have e2 : (deliverA w.a k j c d').d = d' := rfl
+      rw [e2] at h1 h2
+      rw [gate_pid _ _ _ _ _ _ _ hgate] at h1
+      rw [alive_congr hgp.2 hgp.1] at h2
+      exact ⟨h1, h2⟩
+
+/-! ### runs of the second scheduler, without the hypothesis on adoption -/
+
+/-- a run of enabled world events: callbacks, completions of helper threads the world lets complete, process moves. -/
+def RunE (fl : Flags) : W → List WEv → Prop
+  | _, [] => True
+  | w, e :: es => WEnabled w e ∧ RunE fl (w.apply fl e) es
+
+theorem noAdoptAt_of_own {fl : Flags} {w : W} (hG : Good fl w.a.s) (ho : PidOwn w.a.s w.a.d) (hu : UniqId w.a.s)
+    (e : WEv) : NoAdoptAt w e := by
+  cases e with
+  | sched ev =>
+    cases ev with
+    | step => intro j rest hr; exact noAdopt_of_own hG ho hu j rest hr
+    | _ => trivial
+  | _ => trivial
+
+theorem runE_bound {fl : Flags} (hg : fl.readyGuarded = true) (hf : fl.resubmitRegisters = true)
+    (ha : fl.abortRechecks = true) (hrel : fl.abortReleases = true) {totals : List Nat} {done0 : Nat → Bool}
+    (evs : List WEv) : ∀ w, WReach fl totals done0 w → Good fl w.a.s → PidOwn w.a.s w.a.d → UniqId w.a.s →
+      RunE fl w evs →
+      (WReach fl totals done0 (W.run fl w evs) ∧ Good fl (W.run fl w evs).a.s ∧
+        PidOwn (W.run fl w evs).a.s (W.run fl w evs).a.d ∧ UniqId (W.run fl w evs).a.s) ∧
+      RunW fl w evs ∧ evs.length + wmu (W.run fl w evs) ≤ wmu w := by
+  induction evs with
+  | nil => intro w hW hG ho hu _; exact ⟨⟨hW, hG, ho, hu⟩, trivial, by simp [W.run]⟩
+  | cons e es ih =>
+    intro w hW hG ho hu hrun
+    obtain ⟨hen, hrest⟩ := hrun
+    have hna := noAdoptAt_of_own hG ho hu e
+    obtain ⟨hG', hlt⟩ := wstep hg hf ha hrel hW hG e hen hna
+    obtain ⟨ho', hu'⟩ := own_step hW hG ho hu e hen hna hG'
+    obtain ⟨r1, r2, r3⟩ := ih (w.apply fl e) (hW.apply e) hG' ho' hu' hrest
+    refine ⟨r1, ⟨hen, hna, r2⟩, ?_⟩
+    simp only [W.run, List.length_cons]
+    omega
+
+/-! ### the re-submission -/
+
+/-- every invariant survives a well-formed event of M2 (submissions included). -/
+theorem good_apply' {fl : Flags} (hg : fl.readyGuarded = true) (hf : fl.resubmitRegisters = true)
+    (ha : fl.abortRechecks = true) {s : St} (ev : Ev) (hok : EvOK s ev) (hnd : EvNoDouble ev) (h : Good fl s) :
+    Good fl (s.apply fl ev) := by
+  obtain ⟨N, hi⟩ := h.cap
+  exact ⟨apply_invE fl hg ha s ev hok h.e, apply_invR fl hg s ev hok h.e.c h.r,
+    noDoubleTok_apply fl hg s ev h.e.c.a hnd h.nd, apply_invB fl hg hf s ev h.e.c.a h.b,
+    XpmVerif.Sched.apply_Inv (ar := false) (fun e => by cases e) ev hi⟩
+
+theorem step_ident (fl : Flags) (s : St) (i : Nat) : ((s.step fl).jobs i).ident = (s.jobs i).ident := by
+  unfold St.step
+  split
+  · rfl
+  · rename_i cb rest hr
+    obtain ⟨_, _, _, _, fj, fc⟩ := runCb_frame fl ({ s with ready := rest } : St) cb
+    by_cases hi : i = target cb
+    · subst hi; exact fc.1
+    · rw [fj i hi]
+
+theorem steps_ident (fl : Flags) (k : Nat) (s : St) (i : Nat) : ((St.steps fl s k).jobs i).ident = (s.jobs i).ident := by
+  have := steps_ind (fun s' => (s'.jobs i).ident = (s.jobs i).ident) fl
+    (fun s' h => by rw [step_ident]; exact h) k s rfl
+  exact this
+
+theorem submitPost_ident (s : St) (j i : Nat) : ((SchedFinal.submitPost s j).jobs i).ident = (s.jobs i).ident := by
+  by_cases hi : i = j
+  · subst hi
+    unfold SchedFinal.submitPost
+    split
+    · rfl
+    · simp only [put_jobs, SchedFinal.upd_same]
+  · rw [submitPost_jobs_ne _ _ _ hi]
+
+/-- identifiers after a submission. -/
+theorem apply_submit_ids (fl : Flags) (s : St) (ident : Nat) (deps : List Origin) (code : Nat) (marker : Bool) :
+    (s.apply fl (.submit ident deps code marker)).n = s.n + 1 ∧
+    ((s.apply fl (.submit ident deps code marker)).jobs s.n).ident = ident ∧
+    ∀ i, i ≠ s.n → ((s.apply fl (.submit ident deps code marker)).jobs i).ident = (s.jobs i).ident := by
+  rw [apply_submit]
+  refine ⟨by rw [submitPost_n, SchedFinal.steps_n]; rfl, ?_, ?_⟩
+  · rw [submitPost_ident, steps_ident]
+    simp [SchedFinal.submitPre, SchedFinal.newJob]
+  · intro i hi
+    rw [submitPost_ident, steps_ident, submitPre_jobs_ne _ _ _ _ _ _ hi]
+
+/-- a submission of the re-submission phase: identifier, dependencies, outcome of the body. -/
+structure Sub where
+  ident : Nat
+  deps : List Origin
+  code : Nat
+
+/-- the submission event: it carries the marker flag the job directory shows (the world overwrites the flag with the
+    same value when the first segment runs). -/
+def Sub.ev (d0 : Disk) (x : Sub) : Ev := .submit x.ident x.deps x.code (d0.dir x.ident).done
+
+/-- the submissions are well formed (dependencies on earlier submissions and existing tokens, as `EvOK`), no job asks
+    twice for the same token, and the identifiers are new. -/
+def SubsOK (fl : Flags) (d0 : Disk) : St → List Sub → Prop
+  | _, [] => True
+  | s, x :: xs => EvOK s (x.ev d0) ∧ EvNoDouble (x.ev d0) ∧ (∀ j, j < s.n → (s.jobs j).ident ≠ x.ident) ∧
+      SubsOK fl d0 (s.apply fl (x.ev d0)) xs
+
+theorem resub {fl : Flags} (P : St → Prop)
+    (hstep : ∀ s ev, EvOK s ev → EvNoDouble ev → P s → P (s.apply fl ev))
+    (d0 : Disk) (hnl : NoLivePid d0) (xs : List Sub) :
+    ∀ (w : W), Phase d0 w.a → P w.a.s → UniqId w.a.s → SubsOK fl d0 w.a.s xs →
+      Phase d0 (W.run fl w (xs.map (fun x => WEv.sched (x.ev d0)))).a ∧
+      P (W.run fl w (xs.map (fun x => WEv.sched (x.ev d0)))).a.s ∧
+      UniqId (W.run fl w (xs.map (fun x => WEv.sched (x.ev d0)))).a.s := by
+  induction xs with
+  | nil => intro w hP hG hu _; exact ⟨hP, hG, hu⟩
+  | cons x xs ih =>
+    intro w hP hG hu hok
+    obtain ⟨h1, h2, h3, h4⟩ := hok
+    obtain ⟨e1, hP'⟩ := phase_submit fl d0 hnl w.a hP x.ident x.deps x.code (d0.dir x.ident).done rfl
+    have es : (w.apply fl (.sched (x.ev d0))).a.s = w.a.s.apply fl (x.ev d0) := by
+      show (applyA fl world w.a (x.ev d0)).s = _
+      unfold Sub.ev; rw [e1]
+    have hG' : P (w.apply fl (.sched (x.ev d0))).a.s := by rw [es]; exact hstep _ _ h1 h2 hG
+    have hu' : UniqId (w.apply fl (.sched (x.ev d0))).a.s := by
+      rw [es]
+      obtain ⟨i1, i2, i3⟩ := apply_submit_ids fl w.a.s x.ident x.deps x.code (d0.dir x.ident).done
+      intro j j' hj hj' he
+      unfold Sub.ev at hj hj' he
+      rw [i1] at hj hj'
+      by_cases c1 : j = w.a.s.n <;> by_cases c2 : j' = w.a.s.n
+      · omega
+      · subst c1
+        rw [i2, i3 j' c2] at he
+        exact absurd he.symm (h3 j' (by omega))
+      · subst c2
+        rw [i2, i3 j c1] at he
+        exact absurd he (h3 j (by omega))
+      · rw [i3 j c1, i3 j' c2] at he
+        exact hu j j' (by omega) (by omega) he
+    simp only [List.map_cons, W.run]
+    exact ih _ hP' hG' hu' (by rw [es]; exact h4)
+
+/-! ### the second run -/
+
+theorem wreach_run {fl : Flags} {totals : List Nat} {done0 : Nat → Bool} (evs : List WEv) :
+    ∀ w, WReach fl totals done0 w → WReach fl totals done0 (W.run fl w evs) := by
+  induction evs with
+  | nil => intro w h; exact h
+  | cons e es ih => intro w h; exact ih _ (h.apply e)
+
+/-- the world after the crash of the scheduler, its restart, and the re-submission `xs` to the new scheduler. -/
+def resubmitted (fl : Flags) (w : W) (xs : List Sub) : W :=
+  W.run fl w.restart (xs.map (fun x => WEv.sched (x.ev w.restart.a.d)))
+
+theorem good_init {fl : Flags} (hg : fl.readyGuarded = true) (hf : fl.resubmitRegisters = true)
+    (ha : fl.abortRechecks = true) (totals : List Nat) : Good fl (St.init totals) :=
+  good_of_reachable hg hf ha (totals := totals) .init (fun j i i' t c c' h1 => by
+    have : (depAt ((St.init totals).jobs j) i).origin = .job 0 := rfl
+    rw [this] at h1; cases h1)
+
+/-- after a crash at any point, if no pid file names a live process, the restarted scheduler that has taken
+    well-formed submissions with distinct identifiers is in a state that satisfies every invariant of M2, owns every
+    live pid file (there is none yet), and the disk is the one it found. -/
+theorem resubmitted_sound {fl : Flags} (hg : fl.readyGuarded = true) (hf : fl.resubmitRegisters = true)
+    (ha : fl.abortRechecks = true) {totals : List Nat} {done0 : Nat → Bool} {w : W}
+    (hW : WReach fl totals done0 w) (hnl : NoLivePid w.restart.a.d) (xs : List Sub)
+    (hok : SubsOK fl w.restart.a.d (St.init w.totals) xs) :
+    WReach fl totals done0 (resubmitted fl w xs) ∧ Good fl (resubmitted fl w xs).a.s ∧
+    PidOwn (resubmitted fl w xs).a.s (resubmitted fl w xs).a.d ∧ UniqId (resubmitted fl w xs).a.s ∧
+    (resubmitted fl w xs).a.d = w.restart.a.d := by
+  have hW' : WReach fl totals done0 w.restart := hW.apply .crash
+  have hP : Phase w.restart.a.d w.restart.a :=
+    ⟨rfl, rfl, Restart.init_invB _ _, init_inv1 _, fun j => by simp [Restart.cRes, W.restart, St.init],
+     fun j hj => by exact absurd hj (Nat.not_lt_zero j)⟩
+  have hu : UniqId w.restart.a.s := fun j j' hj => by exact absurd hj (Nat.not_lt_zero j)
+  obtain ⟨p1, p2, p3⟩ := resub (Good fl) (fun s ev h1 h2 h => good_apply' hg hf ha ev h1 h2 h) w.restart.a.d hnl xs
+    w.restart hP (good_init hg hf ha _) hu hok
+  refine ⟨wreach_run _ _ hW', p2, ?_, p3, p1.disk⟩
+  intro i p hp hal
+  have hd : (resubmitted fl w xs).a.d = w.restart.a.d := p1.disk
+  rw [hd] at hp hal
+  rw [hnl i p hp] at hal
+  cases hal
+
+/-- **C11, second run, partial**: every run of the second scheduler (callbacks, helper-thread completions the world
+    allows, moves of the job processes — old and new ones) has at most `wmu` events, adopts nothing, and keeps every
+    invariant of M2. -/
+theorem restart_run_finite_partial {fl : Flags} (hg : fl.readyGuarded = true) (hf : fl.resubmitRegisters = true)
+    (ha : fl.abortRechecks = true) (hrel : fl.abortReleases = true) {totals : List Nat} {done0 : Nat → Bool} {w : W}
+    (hW : WReach fl totals done0 w) (hnl : NoLivePid w.restart.a.d) (xs : List Sub)
+    (hok : SubsOK fl w.restart.a.d (St.init w.totals) xs) (evs : List WEv)
+    (hrun : RunE fl (resubmitted fl w xs) evs) :
+    evs.length ≤ wmu (resubmitted fl w xs) ∧ RunW fl (resubmitted fl w xs) evs ∧
+    Good fl (W.run fl (resubmitted fl w xs) evs).a.s := by
+  obtain ⟨s1, s2, s3, s4, _⟩ := resubmitted_sound hg hf ha hW hnl xs hok
+  obtain ⟨⟨_, r2, _, _⟩, r5, r6⟩ := runE_bound hg hf ha hrel evs _ s1 s2 s3 s4 hrun
+  exact ⟨by omega, r5, r2⟩
+
+/-! ### Boolean checkers (for concrete instances of the hypotheses) -/
+
+/-- Boolean form of `NoLivePid`, over the processes: no live process is named by the pid file of its job. -/
+def noLivePidB (d : Disk) : Bool :=
+  (List.range d.np).all (fun p => !(d.alive p) || decide ((d.dir (d.procs p).ident).pid ≠ some p))
+
+theorem noLivePid_of_b {done0 : Nat → Bool} {d : Disk} (hD : DiskInv done0 d) (h : noLivePidB d = true) :
+    NoLivePid d := by
+  intro i p hp
+  obtain ⟨hlt, hid⟩ := hD.pid i p hp
+  cases hal : d.alive p with
+  | false => rfl
+  | true =>
+    have := List.all_eq_true.mp h p (List.mem_range.mpr hlt)
+    simp only [hal, Bool.not_true, Bool.false_or, decide_eq_true_eq] at this
+    rw [hid] at this
+    exact absurd hp this
+
+def wEnabledB (w : W) : WEv → Bool
+  | .sched .step => !w.a.s.ready.isEmpty
+  | .sched (.deliver k) =>
+    (match w.a.s.threads[k]? with
+     | some (kind, j) => (world.gate w.a.d kind j (w.a.s.jobs j) (w.a.adopted j)).isSome
+     | none => false)
+  | .proc p _ => decide (p < w.a.d.np) &&
+      (decide ((w.a.d.procs p).ph = .body) || decide ((w.a.d.procs p).ph = .exiting) ||
+       (decide ((w.a.d.procs p).ph = .waitLock) && decide ((w.a.d.dir (w.a.d.procs p).ident).lock = .free)))
+  | _ => false
+
+theorem wEnabledB_sound (w : W) (e : WEv) (h : wEnabledB w e = true) : WEnabled w e := by
+  cases e with
+  | sched ev =>
+    cases ev with
+    | step =>
+      simp only [wEnabledB, Bool.not_eq_true', List.isEmpty_eq_false_iff] at h
+      exact h
+    | deliver k =>
+      simp only [wEnabledB] at h
+      split at h
+      · rename_i kind j hk
+        cases hg : world.gate w.a.d kind j (w.a.s.jobs j) (w.a.adopted j) with
+        | none => rw [hg] at h; cases h
+        | some r => exact ⟨kind, j, r.1, r.2, hk, hg⟩
+      · cases h
+    | submit _ _ _ _ => cases h
+    | wait => cases h
+  | proc p rm =>
+    simp only [wEnabledB, Bool.and_eq_true, Bool.or_eq_true, decide_eq_true_eq] at h
+    obtain ⟨h1, h2⟩ := h
+    refine ⟨h1, ?_⟩
+    rcases h2 with (h2 | h2) | h2
+    · exact Or.inl h2
+    · exact Or.inr (Or.inl h2)
+    · exact Or.inr (Or.inr h2)
+  | crash => cases h
+  | crashAfterSpawn j => cases h
+  | crashInPrepare j st => cases h
+
+def runEb (fl : Flags) : W → List WEv → Bool
+  | _, [] => true
+  | w, e :: es => wEnabledB w e && runEb fl (w.apply fl e) es
+
+theorem runE_of_b (fl : Flags) (evs : List WEv) : ∀ w, runEb fl w evs = true → RunE fl w evs := by
+  induction evs with
+  | nil => intro _ _; trivial
+  | cons e es ih =>
+    intro w h
+    simp only [runEb, Bool.and_eq_true] at h
+    exact ⟨wEnabledB_sound w e h.1, ih _ h.2⟩
+
+/-! ### the invariants behind deadlock freedom (`quiescent_final`), through edits and events -/
+
+/-- `Good` plus what `SchedFinal.quiescent_final` uses: no lost notification, scheduled origins. -/
+structure Good2 (fl : Flags) (s : St) : Prop where
+  g : Good fl s
+  q : InvQF s
+  h : InvH s
+
+theorem good2_edit {fl : Flags} {s : St} {j : Nat} {jb' : Job} (hG : Good2 fl s) (h : SameBut (s.jobs j) jb')
+    (hL : JLocal jb') : Good2 fl (edit s j jb') := by
+  have hall := edit_sameBut_all h
+  have hd : ∀ i k, depAt ((edit s j jb').jobs i) k = depAt (s.jobs i) k := fun i k => depAt_sameBut (hall i) k
+  refine ⟨good_edit hG.g h hL, ?_, ⟨?_, ?_, ?_⟩⟩
+  · exact invQ_transfer (s := s) (s' := edit s j jb')
+      (fun i k hs => ⟨by have := hs.1; unfold Started at this ⊢; rw [(hall i).state] at this; exact this,
+        by have := hs.2.1; rw [(hall i).deps] at this; exact this, trivial⟩)
+      (fun i k _ => hd i k) (fun o r hf => by rw [(hall o).pc] at hf; exact hf) (fun _ => Int.le_refl _)
+      (fun _ _ hp => hp) (fun _ _ hp => hp) (fun _ _ hp => hp) hG.q
+  · intro p hp; rw [(hall p.2).pc]; exact hG.h.reg p hp
+  · intro d hd'; rw [(hall _).pc]; exact hG.h.oe.effSch d hd'
+  · intro i k o hk ho; rw [(hall i).deps] at hk; rw [hd] at ho; rw [(hall o).pc]; exact hG.h.oe.origSch i k o hk ho
+
+theorem tokFit_edit {s : St} {j : Nat} {jb' : Job} (hT : TokFit s) (h : SameBut (s.jobs j) jb') : TokFit (edit s j jb') := by
+  have hall := edit_sameBut_all h
+  intro i k t c hk ho
+  rw [(hall i).deps] at hk; rw [depAt_sameBut (hall i) k] at ho; exact hT i k t c hk ho
+
+theorem good2_apply {fl : Flags} (hg : fl.readyGuarded = true) (hf : fl.resubmitRegisters = true)
+    (ha : fl.abortRechecks = true) {s : St} (ev : Ev) (hok : EvOK s ev) (hnd : EvNoDouble ev)
+    (h : Good2 fl s) : Good2 fl (s.apply fl ev) :=
+  ⟨good_apply' hg hf ha ev hok hnd h.g, (apply_invG fl hg ha s ev hok ⟨h.g.e, h.q⟩).nolost,
+   apply_invH fl hg hf s ev hok h.g.e.c.a h.g.b h.g.e.c.st h.h⟩
+
+/-- `SchedFinal.quiescent_final` from the invariants. -/
+theorem quiescent_final' {fl : Flags} {s : St} (hG2 : Good2 fl s) (hfit : TokFit s) (hr : s.ready = []) (ht : s.threads = []) :
+    AllFinal s ∧ (∀ t, s.avail t = s.total t) ∧ ∀ j, (s.jobs j).held = [] := by
+  have hG : InvG fl s := ⟨hG2.g.e, hG2.q⟩
+  have hH := hG2.h
+  obtain ⟨N, hi⟩ := hG2.g.cap
+  have hfull : ∀ t, s.avail t = s.total t := fun t => (hi.idle_full hr ht t).1
+  refine ⟨?_, hfull, (hi.idle_full hr ht 0).2⟩
+  have hnopend : ∀ j i, ¬ Pend s j i := by
+    intro j i hp; unfold Pend at hp; rw [hr] at hp; simp at hp
+  have key : ∀ j, pcKind (s.jobs j).pc = 0 := by
+    intro j
+    induction j using Nat.strongRecOn with
+    | _ j ih =>
+      apply Classical.byContradiction
+      intro hk
+      obtain ⟨hpc, hw, i, hi, hcur⟩ := quiescent_alive_sleeps hG hr ht j hk
+      have hst : Started s j := by unfold Started; rw [hw]; intro e; cases e
+      have hsc : InScope s (fun _ _ => True) j i := ⟨hst, hi, trivial⟩
+      cases ho : (depAt (s.jobs j) i).origin with
+      | tok t c =>
+        rcases hG.nolost.tokWait j i t c hsc (by simp) ho hcur with hlt | hp
+        · have := hfit j i t c hi ho
+          rw [hfull t] at hlt
+          omega
+        · exact hnopend j i hp
+      | job o =>
+        have holt := hG.e.c.st.acyclic j i o hi ho
+        have hko := ih o holt
+        rcases pcKind_zero.1 hko with hn | ⟨r, hfin⟩
+        · exact hH.oe.origSch j i o hi ho hn
+        · exact hnopend j i (hG.nolost.jobWait j i o r hsc (by simp) ho hcur hfin)
+  intro j _
+  exact pcKind_zero.1 (key j)
+
+/-- the scheduler side of an enabled, non-adopting world event: nothing (process move), or an enabled event of M2 on
+    the state itself or on the state with one record edited in `marker` / `code`. -/
+theorem wshape {fl : Flags} {totals : List Nat} {done0 : Nat → Bool} {w : W}
+    (hW : WReach fl totals done0 w) (hG : Good fl w.a.s) (e : WEv) (hen : WEnabled w e) (hna : NoAdoptAt w e) :
+    (w.apply fl e).a.s = w.a.s ∨
+    ∃ se ev, Enabled se ev ∧ (w.apply fl e).a.s = se.apply fl ev ∧
+      (se = w.a.s ∨ ∃ j jb', se = edit w.a.s j jb' ∧ SameBut (w.a.s.jobs j) jb' ∧ JLocal jb') := by
+  cases e with
+  | crash => exact absurd hen id
+  | crashAfterSpawn j => exact absurd hen id
+  | crashInPrepare j st => exact absurd hen id
+  | proc p rm => exact Or.inl rfl
+  | sched ev =>
+    right
+    cases ev with
+    | submit _ _ _ _ => exact absurd hen id
+    | wait => exact absurd hen id
+    | step =>
+      have hne : w.a.s.ready ≠ [] := hen
+      cases hr : w.a.s.ready with
+      | nil => exact absurd hr hne
+      | cons cb rest =>
+        have hna' : ∀ j, cb = .start j → (world.look w.a.d j (w.a.s.jobs j)).adopt = false := by
+          intro j hj; subst hj; exact hna j rest hr
+        have hs := stepA_noAdopt fl w.a cb rest hr hna'
+        have plain : (stepA fl world w.a).s = w.a.s.apply fl .step →
+            ∃ se ev, Enabled se ev ∧ (w.apply fl (.sched .step)).a.s = se.apply fl ev ∧
+              (se = w.a.s ∨ ∃ j jb', se = edit w.a.s j jb' ∧ SameBut (w.a.s.jobs j) jb' ∧ JLocal jb') :=
+          fun h => ⟨w.a.s, .step, hne, h, Or.inl rfl⟩
+        cases cb with
+        | start j =>
+          have hpc := head_start_pc (s := w.a.s) hG.e.c.a.ctl hr
+          have hun := hG.e.c.f j (Or.inr hpc)
+          have hsb : SameBut (w.a.s.jobs j) (markerRec w.a j) := ⟨rfl, rfl, rfl, rfl, rfl, rfl, rfl, rfl, rfl, rfl⟩
+          have hL := jlocal_marker_edit (hG.e.c.a.loc j) hpc hun (world.look w.a.d j (w.a.s.jobs j)).marker
+          exact ⟨edit w.a.s j (markerRec w.a j), .step, hne, hs, Or.inr ⟨j, _, rfl, hsb, hL⟩⟩
+        | resume j => exact plain hs
+        | register j => exact plain hs
+        | wake j => exact plain hs
+        | check j d => exact plain hs
+        | notifyCheck j d => exact plain hs
+        | waiterRun => exact plain hs
+    | deliver k =>
+      obtain ⟨kind, j, c, d', hk, hgate⟩ := hen
+      have hkl : k < w.a.s.threads.length := by
+        apply Classical.byContradiction; intro hn
+        rw [List.getElem?_eq_none (by omega)] at hk; cases hk
+      have e0 : (w.apply fl (.sched (.deliver k))).a = deliverA w.a k j c d' := by
+        show applyA fl world w.a (.deliver k) = _
+        simp only [applyA, hk, hgate]
+      rw [e0]
+      cases c with
+      | none =>
+        refine ⟨w.a.s, .deliver k, hkl, ?_, Or.inl rfl⟩
+        simp only [deliverA, setCode, St.apply, hk]
+      | some cv =>
+        have hkind := gate_code_kind _ _ _ _ _ _ _ hgate
+        subst hkind
+        have hkm : (TK.code, j) ∈ w.a.s.threads := List.mem_of_getElem? hk
+        have hpc : (w.a.s.jobs j).pc = .codeWait := by
+          have := (wreach_inv hW).sched.1.kind _ hkm
+          simp only at this
+          revert this
+          cases (w.a.s.jobs j).pc <;> simp [kindOk]
+        have hrun := (hG.e.c.d.recs j).runRunning (by rw [hpc]; rfl)
+        have hsb : SameBut (w.a.s.jobs j) { (w.a.s.jobs j) with code := cv } := ⟨rfl, rfl, rfl, rfl, rfl, rfl, rfl, rfl, rfl, rfl⟩
+        have hL := jlocal_code_edit (hG.e.c.a.loc j) hpc hrun cv
+        refine ⟨edit w.a.s j { (w.a.s.jobs j) with code := cv }, .deliver k, hkl, ?_, Or.inr ⟨j, _, rfl, hsb, hL⟩⟩
+        simp only [deliverA, setCode, put_nil_eq, St.apply, edit_threads, hk]
+
+theorem good2_wstep {fl : Flags} (hg : fl.readyGuarded = true) (hf : fl.resubmitRegisters = true)
+    (ha : fl.abortRechecks = true) {totals : List Nat} {done0 : Nat → Bool} {w : W}
+    (hW : WReach fl totals done0 w) (hG : Good2 fl w.a.s) (e : WEv) (hen : WEnabled w e) (hna : NoAdoptAt w e) :
+    Good2 fl (w.apply fl e).a.s := by
+  rcases wshape hW hG.g e hen hna with h | ⟨se, ev, hev, hs, hse⟩
+  · rw [h]; exact hG
+  · rw [hs]
+    have hG' : Good2 fl se := by
+      rcases hse with rfl | ⟨j, jb', rfl, hsb, hL⟩
+      · exact hG
+      · exact good2_edit hG hsb hL
+    exact good2_apply hg hf ha ev (evOK_enabled se ev hev)
+      (by cases ev <;> first | trivial | exact absurd hev id) hG'
+
+theorem tokFit_wstep {fl : Flags} {totals : List Nat} {done0 : Nat → Bool} {w : W}
+    (hW : WReach fl totals done0 w) (hG : Good fl w.a.s) (hT : TokFit w.a.s) (e : WEv) (hen : WEnabled w e)
+    (hna : NoAdoptAt w e) : TokFit (w.apply fl e).a.s := by
+  rcases wshape hW hG e hen hna with h | ⟨se, ev, hev, hs, hse⟩
+  · rw [h]; exact hT
+  · rw [hs]
+    have hT' : TokFit se := by
+      rcases hse with rfl | ⟨j, jb', rfl, hsb, _⟩
+      · exact hT
+      · exact tokFit_edit hT hsb
+    exact tokFit_enabled fl se ev hev hT'
+
+theorem sameIds_wstep {fl : Flags} {totals : List Nat} {done0 : Nat → Bool} {w : W}
+    (hW : WReach fl totals done0 w) (hG : Good fl w.a.s) (e : WEv) (hen : WEnabled w e)
+    (hna : NoAdoptAt w e) : SameIds w.a.s (w.apply fl e).a.s := by
+  rcases wshape hW hG e hen hna with h | ⟨se, ev, hev, hs, hse⟩
+  · rw [h]; exact SameIds.refl _
+  · rw [hs]
+    have h1 : SameIds w.a.s se ∧ Good fl se := by
+      rcases hse with rfl | ⟨j, jb', rfl, hsb, hL⟩
+      · exact ⟨SameIds.refl _, hG⟩
+      · exact ⟨sameIds_edit hsb, good_edit hG hsb hL⟩
+    refine h1.1.trans ?_
+    cases ev with
+    | submit _ _ _ _ => exact absurd hev id
+    | wait => exact absurd hev id
+    | deliver k => simp only [St.apply]; split <;> exact ⟨rfl, fun _ => rfl, fun _ h => h⟩
+    | step =>
+      have hne : se.ready ≠ [] := hev
+      cases hr : se.ready with
+      | nil => exact absurd hr hne
+      | cons cb rest =>
+        have : se.apply fl .step = ({ se with ready := rest } : St).runCb fl cb := by
+          simp only [St.apply]; unfold St.step; simp only [hr]
+        rw [this]
+        exact sameIds_runCb fl se cb rest h1.2.e.c.a.ctl h1.2.e.c.a.loc hr
+
+/-! ### who holds the run locks taken by the scheduler -/
+
+/-- job `j` holds the run lock of its directory: its `lockEnter` thread has completed and its `lockExit` thread has not. -/
+def Holds (s : St) (j : Nat) : Prop :=
+  ((s.jobs j).pc = .lockEnter ∧ Restart.cThr s j = 0) ∨
+  (((s.jobs j).pc = .lockExitAbort ∨ (s.jobs j).pc = .lockExitRun) ∧ Restart.cThr s j = 1)
+
+/-- a run lock held by the scheduler is held by one of its jobs. -/
+def LockLink (s : St) (d : Disk) : Prop :=
+  ∀ i, (d.dir i).lock = .sched → ∃ j, j < s.n ∧ (s.jobs j).ident = i ∧ Holds s j
+
+theorem holds_of_view {s s' : St} {i : Nat} (hv : view s' i = view s i) (h : Holds s i) : Holds s' i := by
+  simp only [view, View.mk.injEq] at hv
+  obtain ⟨v1, _, _, v4, _⟩ := hv
+  unfold Holds at h ⊢
+  rw [v1, v4]; exact h
+
+theorem procStep_lock (d : Disk) (p : Nat) (rm : Bool) (i : Nat)
+    (h : ((d.procStep p rm).dir i).lock = .sched) : (d.dir i).lock = .sched := by
+  unfold Disk.procStep at h
+  split at h
+  · simp only [] at h
+    split at h
+    · split at h
+      · split at h <;> simp only [Disk.setDir, Disk.setProc, upd] at h <;> grind
+      · exact h
+    · split at h <;> simp only [Disk.setDir, Disk.setProc, upd] at h <;> grind
+    · simp only [Disk.setDir, Disk.setProc, upd] at h; grind
+    · exact h
+  · exact h
+
+theorem onLaunch_lock (d : Disk) (j : Nat) (jb : Job) (i : Nat) :
+    ((world.onLaunch d j jb).dir i).lock = (d.dir i).lock := by
+  simp only [world, Disk.spawn, Disk.setDir, upd]
+  split <;> simp_all
+
+theorem gate_lock (d : Disk) (kind : TK) (j : Nat) (jb : Job) (ad : Bool) (c : Option Nat) (d' : Disk)
+    (h : world.gate d kind j jb ad = some (c, d')) (i : Nat) (hl : (d'.dir i).lock = .sched) :
+    (kind = .lockEnter ∧ i = jb.ident) ∨ ((d.dir i).lock = .sched ∧ ¬ (kind = .lockExit ∧ i = jb.ident)) := by
+  cases kind <;> simp only [world] at h
+  · split at h <;> simp at h
+    obtain ⟨_, rfl⟩ := h
+    by_cases hi : i = jb.ident
+    · exact Or.inl ⟨rfl, hi⟩
+    · simp only [Disk.setDir, upd, hi, if_false] at hl
+      exact Or.inr ⟨hl, by simp⟩
+  · simp at h; obtain ⟨_, rfl⟩ := h
+    by_cases hi : i = jb.ident
+    · subst hi
+      simp only [Disk.setDir, upd, if_true] at hl
+      split at hl
+      · cases hl
+      · rename_i hne; exact absurd hl hne
+    · simp only [Disk.setDir, upd, hi, if_false] at hl
+      exact Or.inr ⟨hl, by simp [hi]⟩
+  · split at h
+    · simp at h
+    · split at h <;> simp at h <;> obtain ⟨_, rfl⟩ := h <;> exact Or.inr ⟨hl, by simp⟩
+  · simp at h; obtain ⟨_, rfl⟩ := h; exact Or.inr ⟨hl, by simp⟩
+
+/-- the segment after the lock-enter thread leaves the job waiting for its lock-exit thread. -/
+theorem resume_lockEnter_holds (fl : Flags) (s : St) (j : Nat) (hp : (s.jobs j).pc = .lockEnter)
+    (hth : Restart.cThr s j = 0) : Holds (s.resume fl j) j := by
+  have hb := acquireAll_bg j (s.jobs j).deps.length 0 s
+  have e : s.resume fl j =
+      (match (s.acquireAll j (s.jobs j).deps.length 0).2 with
+       | some d =>
+         let s1 := (s.acquireAll j (s.jobs j).deps.length 0).1
+         let s2 := (if fl.abortReleases then s1.releaseAll j (s1.jobs j).held else s1).check fl j d
+         s2.put j { (s2.jobs j) with pc := .lockExitAbort } [] [(.lockExit, j)]
+       | none =>
+         let s1 := (s.acquireAll j (s.jobs j).deps.length 0).1
+         s1.put j { (s1.jobs j) with launches := (s1.jobs j).launches + 1, state := .running, pc := .lockExitRun } [] [(.lockExit, j)]) := by
+    simp only [St.resume, hp]
+    rcases s.acquireAll j (s.jobs j).deps.length 0 with ⟨s1, _ | d⟩ <;> rfl
+  rw [e]
+  generalize (s.acquireAll j (s.jobs j).deps.length 0) = r at *
+  obtain ⟨s1, fa⟩ := r
+  simp only at hb ⊢
+  right
+  cases fa with
+  | some d =>
+    simp only []
+    have hbr : Bg s1 (if fl.abortReleases then s1.releaseAll j (s1.jobs j).held else s1) := by
+      split
+      · exact releaseAll_bg j _ s1
+      · exact Bg.refl s1
+    have hb2 := check_bg fl (if fl.abortReleases then s1.releaseAll j (s1.jobs j).held else s1) j d
+    have hall := ((hb.trans hbr).trans hb2).fields j
+    refine ⟨Or.inl (by simp [jobs_put]), ?_⟩
+    rw [cThr_put, hall.2.2.2.1, hth]; simp
+  | none =>
+    simp only []
+    have hall := hb.fields j
+    refine ⟨Or.inr (by simp [jobs_put]), ?_⟩
+    rw [cThr_put, hall.2.2.2.1, hth]; simp
+
+theorem deliverA_pc (a : StA Disk) (k j : Nat) (c : Option Nat) (d' : Disk) (i : Nat) :
+    ((deliverA a k j c d').s.jobs i).pc = (a.s.jobs i).pc := by
+  cases c with
+  | none => rfl
+  | some cv =>
+    show ((a.s.put j { (a.s.jobs j) with code := cv }).jobs i).pc = _
+    rw [jobs_put]; split
+    · rename_i e; subst e; rfl
+    · rfl
+
+theorem deliverA_cThr (a : StA Disk) (k j : Nat) (c : Option Nat) (d' : Disk) (kind : TK)
+    (hk : a.s.threads[k]? = some (kind, j)) (i : Nat) :
+    Restart.cThr (deliverA a k j c d').s i + (if j = i then 1 else 0) = Restart.cThr a.s i := by
+  have e : (deliverA a k j c d').s.threads = a.s.threads.eraseIdx k := by
+    cases c with
+    | none => rfl
+    | some cv =>
+      show ((a.s.put j { (a.s.jobs j) with code := cv }).threads).eraseIdx k = _
+      simp [St.put]
+  unfold Restart.cThr
+  rw [e]
+  have := countP_eraseIdx (fun t : TK × Nat => t.2 == i) a.s.threads k (kind, j) hk
+  simp only [beq_iff_eq] at this
+  exact this
+
+theorem cThr_pos_of_mem {s : St} {kind : TK} {j : Nat} (h : (kind, j) ∈ s.threads) : 0 < Restart.cThr s j := by
+  unfold Restart.cThr
+  exact List.countP_pos_iff.mpr ⟨(kind, j), h, by simp⟩
+
+/-- a job that holds its run lock and has a pending helper thread waits for its `lockExit` thread. -/
+theorem holds_thread_kind {s : St} {kind : TK} {j : Nat} (hm : (kind, j) ∈ s.threads)
+    (hk : kindOk kind (s.jobs j).pc = true) (h : Holds s j) : kind = .lockExit := by
+  have hpos := cThr_pos_of_mem hm
+  rcases h with ⟨_, h0⟩ | ⟨hp, _⟩
+  · omega
+  · rcases hp with hp | hp <;> rw [hp] at hk <;> cases kind <;> simp [kindOk] at hk ⊢
+
+/-- one event of the second scheduler keeps the link between the scheduler-held run locks and the jobs. -/
+theorem lock_step {fl : Flags} {totals : List Nat} {done0 : Nat → Bool} {w : W}
+    (hW : WReach fl totals done0 w) (hG : Good fl w.a.s) (hl : LockLink w.a.s w.a.d)
+    (e : WEv) (hen : WEnabled w e) (hna : NoAdoptAt w e) :
+    LockLink (w.apply fl e).a.s (w.apply fl e).a.d := by
+  have hsame := sameIds_wstep hW hG e hen hna
+  have hP : InvP none w.a.s w.a.adopted := (wreach_inv hW).sched.1
+  cases e with
+  | crash => exact absurd hen id
+  | crashAfterSpawn j => exact absurd hen id
+  | crashInPrepare j st => exact absurd hen id
+  | proc p rm =>
+    intro i hi
+    obtain ⟨j0, h1, h2, h3⟩ := hl i (procStep_lock _ _ _ _ hi)
+    exact ⟨j0, h1, h2, h3⟩
+  | sched ev =>
+    cases ev with
+    | submit _ _ _ _ => exact absurd hen id
+    | wait => exact absurd hen id
+    | step =>
+      have hne : w.a.s.ready ≠ [] := hen
+      cases hr : w.a.s.ready with
+      | nil => exact absurd hr hne
+      | cons cb rest =>
+        have hna' : ∀ j, cb = .start j → (world.look w.a.d j (w.a.s.jobs j)).adopt = false := by
+          intro j hj; subst hj; exact hna j rest hr
+        have hd := stepA_disk' fl w.a cb rest hr hna'
+        have hp := pop_inv hP hr
+        have e1 : (w.apply fl (.sched .step)).a = runCbA fl world { w.a with s := { w.a.s with ready := rest } } cb :=
+          stepA_cons fl world w.a cb rest hr
+        intro i hi
+        have hi' : (w.a.d.dir i).lock = .sched := by
+          have e2 : (w.apply fl (.sched .step)).a.d = (stepA fl world w.a).d := rfl
+          rw [e2] at hi
+          rcases hd with e3 | ⟨j, e3, _⟩
+          · rw [e3] at hi; exact hi
+          · rw [e3, onLaunch_lock] at hi; exact hi
+        obtain ⟨j0, h1, h2, h3⟩ := hl i hi'
+        refine ⟨j0, by rw [hsame.n]; exact h1, by rw [hsame.ident]; exact h2, ?_⟩
+        rw [e1]
+        have h3' : Holds ({ w.a.s with ready := rest } : St) j0 := h3
+        by_cases hact : cb ≠ .start j0 ∧ cb ≠ .wake j0 ∧ cb ≠ .resume j0
+        · exact holds_of_view (runCbA_frame fl world { w.a with s := { w.a.s with ready := rest } } cb hp j0 hact).1 h3'
+        · have hc : cb = .start j0 ∨ cb = .wake j0 ∨ cb = .resume j0 := by
+            by_cases c1 : cb = .start j0
+            · exact Or.inl c1
+            · by_cases c2 : cb = .wake j0
+              · exact Or.inr (Or.inl c2)
+              · by_cases c3 : cb = .resume j0
+                · exact Or.inr (Or.inr c3)
+                · exact absurd ⟨c1, c2, c3⟩ hact
+          rcases hc with rfl | rfl | rfl
+          · obtain ⟨hpc, -⟩ := pre_start _ _ j0 (hp.loc j0)
+            rcases h3' with ⟨q, _⟩ | ⟨q | q, _⟩ <;> rw [hpc] at q <;> cases q
+          · obtain ⟨hpc, -⟩ := pre_wake _ _ j0 (hp.loc j0)
+            rcases h3' with ⟨q, _⟩ | ⟨q | q, _⟩ <;> rw [hpc] at q <;> cases q
+          · obtain ⟨-, hth, -⟩ := pre_resume _ _ j0 (hp.loc j0)
+            have hpc : (({ w.a.s with ready := rest } : St).jobs j0).pc = .lockEnter := by
+              rcases h3' with ⟨q, _⟩ | ⟨_, q⟩
+              · exact q
+              · exact absurd (hth.symm.trans q) (by decide)
+            have := resume_lockEnter_holds fl ({ w.a.s with ready := rest } : St) j0 hpc hth
+            simp only [runCbA]
+            split <;> exact this
+    | deliver k =>
+      obtain ⟨kind, j, c, d', hk, hgate⟩ := hen
+      have e0 : (w.apply fl (.sched (.deliver k))).a = deliverA w.a k j c d' := by
+        show applyA fl world w.a (.deliver k) = _
+        simp only [applyA, hk, hgate]
+      rw [e0] at hsame ⊢
+      have hkm : (kind, j) ∈ w.a.s.threads := List.mem_of_getElem? hk
+      have hkind : kindOk kind (w.a.s.jobs j).pc = true := hP.kind _ hkm
+      have hct := deliverA_cThr w.a k j c d' kind hk
+      intro i hi
+      have e2 : (deliverA w.a k j c d').d = d' := rfl
+      rw [e2] at hi
+      rcases gate_lock _ _ _ _ _ _ _ hgate i hi with ⟨rfl, rfl⟩ | ⟨hold, hne⟩
+      · have hpc : (w.a.s.jobs j).pc = .lockEnter := by
+          revert hkind; cases (w.a.s.jobs j).pc <;> simp [kindOk]
+        have hjn : j < w.a.s.n := by
+          apply Classical.byContradiction; intro hn
+          have := (hP.fresh j (by omega)).1
+          rw [hpc] at this; cases this
+        have hc := (hP.loc j).1
+        simp only [CtlV, view, hpc, pk] at hc
+        have h1 := hct j
+        simp only [if_true] at h1
+        refine ⟨j, by rw [hsame.n]; exact hjn, by rw [hsame.ident], Or.inl ⟨by rw [deliverA_pc]; exact hpc, by omega⟩⟩
+      · obtain ⟨j0, h1, h2, h3⟩ := hl i hold
+        have hj0 : j ≠ j0 := by
+          intro e; subst e
+          have := holds_thread_kind hkm hkind h3
+          exact hne ⟨this, h2.symm⟩
+        refine ⟨j0, by rw [hsame.n]; exact h1, by rw [hsame.ident]; exact h2, ?_⟩
+        have h4 := hct j0
+        simp only [hj0, if_false, Nat.add_zero] at h4
+        unfold Holds at h3 ⊢
+        rw [deliverA_pc, h4]; exact h3
+
+theorem adopted_wstep {fl : Flags} {w : W} (e : WEv) (hen : WEnabled w e) (hna : NoAdoptAt w e) :
+    (w.apply fl e).a.adopted = w.a.adopted := by
+  cases e with
+  | crash => exact absurd hen id
+  | crashAfterSpawn j => exact absurd hen id
+  | crashInPrepare j st => exact absurd hen id
+  | proc p rm => rfl
+  | sched ev =>
+    cases ev with
+    | submit _ _ _ _ => exact absurd hen id
+    | wait => exact absurd hen id
+    | step =>
+      have hne : w.a.s.ready ≠ [] := hen
+      cases hr : w.a.s.ready with
+      | nil => exact absurd hr hne
+      | cons cb rest =>
+        have e1 : (w.apply fl (.sched .step)).a = runCbA fl world { w.a with s := { w.a.s with ready := rest } } cb :=
+          stepA_cons fl world w.a cb rest hr
+        rw [e1]
+        cases cb with
+        | start j =>
+          have h0' : (world.look w.a.d j (({ w.a.s with ready := rest } : St).jobs j)).adopt = false := hna j rest hr
+          simp only [runCbA, h0', Bool.false_eq_true, if_false]
+        | resume j => simp only [runCbA]; split <;> rfl
+        | _ => rfl
+    | deliver k =>
+      obtain ⟨kind, j, c, d', hk, hgate⟩ := hen
+      have e0 : (w.apply fl (.sched (.deliver k))).a = deliverA w.a k j c d' := by
+        show applyA fl world w.a (.deliver k) = _
+        simp only [applyA, hk, hgate]
+      rw [e0]; rfl
+
+/-- deadlock freedom of the world when nothing has been adopted: if no event is enabled, the scheduler has nothing
+    queued and no helper thread is pending. -/
+theorem stuck_quiescent {fl : Flags} {totals : List Nat} {done0 : Nat → Bool} {w : W}
+    (hW : WReach fl totals done0 w) (hl : LockLink w.a.s w.a.d) (hu : UniqId w.a.s)
+    (had : ∀ j, w.a.adopted j = false) (hmax : ∀ e, ¬ WEnabled w e) :
+    w.a.s.ready = [] ∧ w.a.s.threads = [] := by
+  have hP : InvP none w.a.s w.a.adopted := (wreach_inv hW).sched.1
+  have hD := (wreach_inv hW).disk
+  have hL := (wreach_link hW).2
+  have hr : w.a.s.ready = [] := by
+    apply Classical.byContradiction; intro h; exact hmax (.sched .step) h
+  refine ⟨hr, ?_⟩
+  cases ht : w.a.s.threads with
+  | nil => rfl
+  | cons t ts =>
+    exfalso
+    obtain ⟨kind, j⟩ := t
+    have hk : w.a.s.threads[0]? = some (kind, j) := by rw [ht]; rfl
+    have hkm : (kind, j) ∈ w.a.s.threads := by rw [ht]; exact List.mem_cons_self ..
+    have hkind := hP.kind _ hkm
+    have hgn : world.gate w.a.d kind j (w.a.s.jobs j) (w.a.adopted j) = none := by
+      cases hg : world.gate w.a.d kind j (w.a.s.jobs j) (w.a.adopted j) with
+      | none => rfl
+      | some r => exact absurd ⟨kind, j, r.1, r.2, hk, hg⟩ (hmax (.sched (.deliver 0)))
+    have hjn : j < w.a.s.n := by
+      apply Classical.byContradiction; intro hn
+      have := (hP.fresh j (by omega)).1
+      rw [this] at hkind
+      cases kind <;> simp [kindOk] at hkind
+    -- a busy run lock of the directory of `j` is impossible unless `j` waits for its `lockExit` thread
+    have busy : (w.a.d.dir (w.a.s.jobs j).ident).lock ≠ .free → kind ≠ .lockExit → False := by
+      intro hbusy hkne
+      cases hlk : (w.a.d.dir (w.a.s.jobs j).ident).lock with
+      | free => exact hbusy hlk
+      | proc q =>
+        obtain ⟨hq, _, hph⟩ := hD.holder _ q hlk
+        refine hmax (.proc q false) ⟨hq, ?_⟩
+        rcases hph with h | h
+        · exact Or.inl h
+        · exact Or.inr (Or.inl h)
+      | sched =>
+        obtain ⟨j', h1, h2, h3⟩ := hl _ hlk
+        have := hu j' j h1 hjn h2
+        subst this
+        exact hkne (holds_thread_kind hkm hkind h3)
+    cases kind with
+    | lockEnter =>
+      simp only [world] at hgn
+      split at hgn
+      · cases hgn
+      · rename_i hne; exact busy hne (by simp)
+    | lockExit => simp [world] at hgn
+    | doneH => simp [world] at hgn
+    | code =>
+      have hpc : (w.a.s.jobs j).pc = .codeWait := by
+        revert hkind; cases (w.a.s.jobs j).pc <;> simp [kindOk]
+      have hl1 : (w.a.s.jobs j).launches = 1 := by
+        rcases hL.cw j hpc with h | h
+        · rw [had j] at h; cases h
+        · exact h
+      obtain ⟨hplt, hpid⟩ := hL.proc j hl1
+      have hal : w.a.d.alive (w.a.d.procOf j) = true := by
+        simp only [world] at hgn
+        split at hgn
+        · assumption
+        · split at hgn <;> cases hgn
+      have hph : (w.a.d.procs (w.a.d.procOf j)).ph ≠ .gone := by
+        simp only [Disk.alive, Bool.and_eq_true, decide_eq_true_eq] at hal
+        exact hal.2
+      have hne := hmax (.proc (w.a.d.procOf j) false)
+      have hwait : (w.a.d.procs (w.a.d.procOf j)).ph = .waitLock ∧
+          (w.a.d.dir (w.a.d.procs (w.a.d.procOf j)).ident).lock ≠ .free := by
+        cases hp : (w.a.d.procs (w.a.d.procOf j)).ph with
+        | gone => exact absurd hp hph
+        | body => exact absurd ⟨hplt, Or.inl hp⟩ hne
+        | exiting => exact absurd ⟨hplt, Or.inr (Or.inl hp)⟩ hne
+        | waitLock =>
+          refine ⟨rfl, fun hfree => ?_⟩
+          exact hne ⟨hplt, Or.inr (Or.inr ⟨hp, hfree⟩)⟩
+      rw [hpid] at hwait
+      exact busy hwait.2 (by simp)
+
+/-! ### maximal runs of a second scheduler that found no live process -/
+
+/-- what every world of the second run satisfies. -/
+structure Sound (fl : Flags) (totals : List Nat) (done0 : Nat → Bool) (w : W) : Prop where
+  reach : WReach fl totals done0 w
+  good : Good2 fl w.a.s
+  own : PidOwn w.a.s w.a.d
+  uniq : UniqId w.a.s
+  lock : LockLink w.a.s w.a.d
+  noad : ∀ j, w.a.adopted j = false
+
+theorem sound_step {fl : Flags} (hg : fl.readyGuarded = true) (hf : fl.resubmitRegisters = true)
+    (ha : fl.abortRechecks = true) (hrel : fl.abortReleases = true) {totals : List Nat} {done0 : Nat → Bool} {w : W}
+    (h : Sound fl totals done0 w) (e : WEv) (hen : WEnabled w e) :
+    Sound fl totals done0 (w.apply fl e) ∧ wmu (w.apply fl e) < wmu w ∧
+    (TokFit w.a.s → TokFit (w.apply fl e).a.s) := by
+  have hna := noAdoptAt_of_own h.good.g h.own h.uniq e
+  obtain ⟨hG', hlt⟩ := wstep hg hf ha hrel h.reach h.good.g e hen hna
+  obtain ⟨ho', hu'⟩ := own_step h.reach h.good.g h.own h.uniq e hen hna hG'
+  refine ⟨⟨h.reach.apply e, good2_wstep hg hf ha h.reach h.good e hen hna, ho', hu',
+    lock_step h.reach h.good.g h.lock e hen hna, ?_⟩, hlt, fun hT => tokFit_wstep h.reach h.good.g hT e hen hna⟩
+  rw [adopted_wstep e hen hna]; exact h.noad
+
+theorem sound_run {fl : Flags} (hg : fl.readyGuarded = true) (hf : fl.resubmitRegisters = true)
+    (ha : fl.abortRechecks = true) (hrel : fl.abortReleases = true) {totals : List Nat} {done0 : Nat → Bool}
+    (evs : List WEv) : ∀ w, Sound fl totals done0 w → RunE fl w evs →
+      Sound fl totals done0 (W.run fl w evs) ∧ evs.length + wmu (W.run fl w evs) ≤ wmu w ∧
+      (TokFit w.a.s → TokFit (W.run fl w evs).a.s) := by
+  induction evs with
+  | nil => intro w h _; exact ⟨h, by simp [W.run], fun hT => hT⟩
+  | cons e es ih =>
+    intro w h hrun
+    obtain ⟨hen, hrest⟩ := hrun
+    obtain ⟨h', hlt, hT⟩ := sound_step hg hf ha hrel h e hen
+    obtain ⟨r1, r2, r3⟩ := ih _ h' hrest
+    refine ⟨r1, ?_, fun hT0 => r3 (hT hT0)⟩
+    simp only [W.run, List.length_cons]
+    omega
+
+theorem good2_init {fl : Flags} (hg : fl.readyGuarded = true) (hf : fl.resubmitRegisters = true)
+    (ha : fl.abortRechecks = true) (totals : List Nat) : Good2 fl (St.init totals) :=
+  ⟨good_init hg hf ha totals, (reachable_invG hg ha (totals := totals) .init).nolost,
+   reachable_invH hg hf (totals := totals) .init⟩
+
+theorem resubmitted_sound2 {fl : Flags} (hg : fl.readyGuarded = true) (hf : fl.resubmitRegisters = true)
+    (ha : fl.abortRechecks = true) {totals : List Nat} {done0 : Nat → Bool} {w : W}
+    (hW : WReach fl totals done0 w) (hnl : NoLivePid w.restart.a.d) (xs : List Sub)
+    (hok : SubsOK fl w.restart.a.d (St.init w.totals) xs) :
+    Sound fl totals done0 (resubmitted fl w xs) := by
+  have hW' : WReach fl totals done0 w.restart := hW.apply .crash
+  have hP : Phase w.restart.a.d w.restart.a :=
+    ⟨rfl, rfl, Restart.init_invB _ _, init_inv1 _, fun j => by simp [Restart.cRes, W.restart, St.init],
+     fun j hj => by exact absurd hj (Nat.not_lt_zero j)⟩
+  have hu : UniqId w.restart.a.s := fun j j' hj => by exact absurd hj (Nat.not_lt_zero j)
+  obtain ⟨p1, p2, p3⟩ := resub (Good2 fl) (fun s ev h1 h2 h => good2_apply hg hf ha ev h1 h2 h) w.restart.a.d hnl xs
+    w.restart hP (good2_init hg hf ha _) hu hok
+  have hd : (resubmitted fl w xs).a.d = w.restart.a.d := p1.disk
+  refine ⟨wreach_run _ _ hW', p2, ?_, p3, ?_, fun j => by
+    have : (resubmitted fl w xs).a.adopted = fun _ => false := p1.adopted
+    rw [this]⟩
+  · intro i p hp hal
+    rw [hd] at hp hal
+    rw [hnl i p hp] at hal
+    cases hal
+  · intro i hi
+    rw [hd] at hi
+    have : (w.restart.a.d.dir i).lock = if (w.a.d.dir i).lock = .sched then .free else (w.a.d.dir i).lock := rfl
+    rw [this] at hi
+    split at hi
+    · cases hi
+    · rename_i hne; exact absurd hi hne
+
+/-- **C11, second run, partial (restarts that find no live process)**: every maximal run of the second scheduler is
+    finite, and ends with every job final, every token full, no lock held. -/
+theorem restart_maximal_run_partial {fl : Flags} (hg : fl.readyGuarded = true) (hf : fl.resubmitRegisters = true)
+    (ha : fl.abortRechecks = true) (hrel : fl.abortReleases = true) {totals : List Nat} {done0 : Nat → Bool} {w : W}
+    (hW : WReach fl totals done0 w) (hnl : NoLivePid w.restart.a.d) (xs : List Sub)
+    (hok : SubsOK fl w.restart.a.d (St.init w.totals) xs) (hfit : TokFit (resubmitted fl w xs).a.s)
+    (evs : List WEv) (hrun : RunE fl (resubmitted fl w xs) evs)
+    (hmax : ∀ e, ¬ WEnabled (W.run fl (resubmitted fl w xs) evs) e) :
+    evs.length ≤ wmu (resubmitted fl w xs) ∧
+    Sound fl totals done0 (W.run fl (resubmitted fl w xs) evs) ∧
+    (W.run fl (resubmitted fl w xs) evs).a.s.ready = [] ∧ (W.run fl (resubmitted fl w xs) evs).a.s.threads = [] ∧
+    AllFinal (W.run fl (resubmitted fl w xs) evs).a.s ∧
+    (∀ t, (W.run fl (resubmitted fl w xs) evs).a.s.avail t = (W.run fl (resubmitted fl w xs) evs).a.s.total t) ∧
+    (∀ j, ((W.run fl (resubmitted fl w xs) evs).a.s.jobs j).held = []) := by
+  have h0 := resubmitted_sound2 hg hf ha hW hnl xs hok
+  obtain ⟨h1, h2, h3⟩ := sound_run hg hf ha hrel evs _ h0 hrun
+  obtain ⟨hr, ht⟩ := stuck_quiescent h1.reach h1.lock h1.uniq h1.noad hmax
+  obtain ⟨q1, q2, q3⟩ := quiescent_final' h1.good (h3 hfit) hr ht
+  exact ⟨by omega, h1, hr, ht, q1, q2, q3⟩
+
+/-- at the end of a maximal run no run lock is held and every job process has exited. -/
+theorem maximal_disk_idle {fl : Flags} {totals : List Nat} {done0 : Nat → Bool} {w : W}
+    (h : Sound fl totals done0 w) (hfin : AllFinal w.a.s) (hmax : ∀ e, ¬ WEnabled w e) :
+    (∀ i, (w.a.d.dir i).lock = .free) ∧ (∀ p, (w.a.d.procs p).ph = .gone) ∧ ∀ i, w.a.d.running i = 0 := by
+  have hD := (wreach_inv h.reach).disk
+  have hfree : ∀ i, (w.a.d.dir i).lock = .free := by
+    intro i
+    cases hlk : (w.a.d.dir i).lock with
+    | free => rfl
+    | proc q =>
+      exfalso
+      obtain ⟨hq, _, hph⟩ := hD.holder _ q hlk
+      refine hmax (.proc q false) ⟨hq, ?_⟩
+      rcases hph with h | h
+      · exact Or.inl h
+      · exact Or.inr (Or.inl h)
+    | sched =>
+      exfalso
+      obtain ⟨j, h1, _, h3⟩ := h.lock i hlk
+      rcases hfin j h1 with hn | ⟨r, hr⟩
+      · rcases h3 with ⟨q, _⟩ | ⟨q | q, _⟩ <;> rw [hn] at q <;> cases q
+      · rcases h3 with ⟨q, _⟩ | ⟨q | q, _⟩ <;> rw [hr] at q <;> cases q
+  refine ⟨hfree, ?_, fun i => by unfold Disk.running; rw [hfree i]⟩
+  intro p
+  by_cases hp : p < w.a.d.np
+  · have hne := hmax (.proc p false)
+    cases hph : (w.a.d.procs p).ph with
+    | gone => rfl
+    | body => exact absurd ⟨hp, Or.inl hph⟩ hne
+    | exiting => exact absurd ⟨hp, Or.inr (Or.inl hph)⟩ hne
+    | waitLock => exact absurd ⟨hp, Or.inr (Or.inr ⟨hph, hfree _⟩)⟩ hne
+  · exact hD.fresh p (by omega)
+
+/-- from every world of the second run some run reaches a world in which no event is enabled (the measure is finite):
+    maximal runs exist. -/
+theorem restart_maximal_run_exists {fl : Flags} (hg : fl.readyGuarded = true) (hf : fl.resubmitRegisters = true)
+    (ha : fl.abortRechecks = true) (hrel : fl.abortReleases = true) {totals : List Nat} {done0 : Nat → Bool} :
+    ∀ (m : Nat) (w : W), Sound fl totals done0 w → wmu w ≤ m →
+      ∃ evs, RunE fl w evs ∧ ∀ e, ¬ WEnabled (W.run fl w evs) e := by
+  intro m
+  induction m with
+  | zero =>
+    intro w h hm
+    refine ⟨[], trivial, fun e hen => ?_⟩
+    have := (sound_step hg hf ha hrel h e hen).2.1
+    omega
+  | succ m ih =>
+    intro w h hm
+    by_cases hex : ∃ e, WEnabled w e
+    · obtain ⟨e, hen⟩ := hex
+      obtain ⟨h', hlt, _⟩ := sound_step hg hf ha hrel h e hen
+      obtain ⟨evs, r1, r2⟩ := ih (w.apply fl e) h' (by omega)
+      exact ⟨e :: evs, ⟨hen, r1⟩, r2⟩
+    · exact ⟨[], trivial, fun e hen => hex ⟨e, hen⟩⟩
+
+/-! ### the full statement, and what is missing
+
+    FULL STATEMENT (C11, "the second run reaches the same final results"): for every `WReach fl totals done0 w`, every
+    re-submission `xs` to the restarted scheduler and every *maximal* `RunE`-run `evs` from `resubmitted fl w xs` (no
+    `WEnabled` event in the last world): `evs` is finite and in `w' = W.run fl (resubmitted fl w xs) evs`
+      * every job is final: `AllFinal w'.a.s`;
+      * (a) a job reported DONE has its marker, one successful body, and `(w'.a.d.dir i).bodies = 1` if none failed
+        (`C11.exactly_once_overall` / `exactly_once_done` give the counting from `WReach` alone);
+      * (b) `∀ t, w'.a.s.avail t = w'.a.s.total t`.
+    Exhaustive search over small worlds (all interleavings, all crash points of the three kinds) finds no counterexample
+    and no cycle, adoption included.
+
+    PROVED here, under `NoLivePid w.restart.a.d` (no pid file names a live process at the restart; orphans without pid
+    file allowed) and `SubsOK` (distinct identifiers): the full statement — `restart_run_finite_partial` (bound `wmu`),
+    `restart_maximal_run_partial` (all final, tokens full, nothing held), `maximal_disk_idle` (locks free, processes
+    gone), `restart_maximal_run_exists`.  `runW_bound` is the bound for an arbitrary reachable world satisfying `Good`,
+    for runs that are assumed not to adopt.
+
+    MISSING: adoption (`NoLivePid` false).  After `startJobA` with `adopt = true` the record is RUNNING at `codeWait` with
+    `launches = 0`, `held = []`, dependencies registered but possibly unsatisfied.  This contradicts `JLocal`
+    (`pcRun → launches = 1`), `JDeep.runRunning/readyDeps` (RUNNING ⇒ every dependency OK), `XInv` (an adopted job can
+    be set to ERROR by a failing dependency while `codeWait`, then DONE/ERROR by the exit code) and the capacity
+    invariant of `SchedCap` (`held = range deps.length` in `codeWait`).  Each of these layers (and `mu`: an adopted job
+    never passes `lockEnter`) needs an "adopted" variant of its `codeWait` clause; the proofs of
+    `Proofs/SchedFinal.lean` cannot be reused as they are.  On the world side, `PidOwn`/`LockLink`/`stuck_quiescent`
+    would need the adopted process as a second kind of owner of a live pid file (it may hold or wait for the run lock
+    while the adopting job sits in `codeWait`, which `stuck_quiescent` already tolerates: a `code` thread blocked by a
+    live process is blocked by a process that can move or by a lock whose holder can move). -/
 
 end XpmVerif.RestartTerm
